@@ -70,8 +70,8 @@ def child_specs(cls):
     return out
 
 
-TEXT_SAMPLES = ["plain", "a<b>&c", "quote\"'", "Müller 日本", "x]]>y", " lead", "trail ", "two  spaces", "line\nbreak", "&amp;"]
-ATTR_SAMPLES = ["v", "a<b>&\"c'", "é日本", "tab\there", "nl\nhere", " sp ", "http://example.org/?a=1&b=2", "2020-01-01T00:00:00Z"]
+TEXT_SAMPLES = ["plain", "a<b>&c", "quote\"'", "Müller 日本", "x]]>y", " lead", "trail ", "two  spaces", "line\nbreak", "&amp;", "cr\rinside", "crlf\r\ninside"]
+ATTR_SAMPLES = ["v", "a<b>&\"c'", "é日本", "tab\there", "nl\nhere", "cr\rhere", " sp ", "http://example.org/?a=1&b=2", "2020-01-01T00:00:00Z"]
 
 
 TYPED_LEXICAL = {
